@@ -128,7 +128,7 @@ def nest_term_kinds(kind, combine):
     multi = combine.startswith("nestM")
     n = len(tree_leaves(NESTS[combine.split(":")[1]]))
     other = "gauss_diag" if (multi or KINDS[kind] in ("real", "pos", "unit")) else kind
-    return [kind if i % 2 == 0 else other for i in range(n)]
+    return [(kind, False) if i % 2 == 0 else (other, other != kind or multi) for i in range(n)]
 
 
 def ncat_for(npix, tier):
@@ -235,8 +235,8 @@ def n_outcomes(kind, wrap, npix, tier):
     combine = WRAPS[wrap][1]
     if combine.startswith("nest"):
         tot = 1
-        for k in nest_term_kinds(kind, combine):
-            tot *= n if k == kind else (2 if combine.startswith("nestM") else 2 ** npix)
+        for k, is_other in nest_term_kinds(kind, combine):
+            tot *= n if not is_other else (2 if combine.startswith("nestM") else 2 ** npix)
         return tot
     return n * {"single": 1, "same": n, "gauss": 2 ** npix, "multi": 2}[combine]
 
@@ -485,8 +485,8 @@ def build_spec(kind, wrap, npix, seed, tier):
         multi = combine.startswith("nestM")
         sp.tree = NESTS[combine.split(":")[1]]
         sp.terms = []
-        for i, k in enumerate(nest_term_kinds(kind, combine)):
-            if k == kind:
+        for i, (k, is_other) in enumerate(nest_term_kinds(kind, combine)):
+            if not is_other:
                 ai = aux if i == 0 else aux_for(kind, npix, seed, "nest%d" % i)
                 sp.terms.append(Term(family_for(kind, npix, ai, tier), segs, kind, ai, None))
             else:
@@ -673,10 +673,10 @@ def lib_build(ift, sp, datas):
             if t.dom_key == "b":
                 e = lib_energy(ift, t, 1, d).ducktape("b")
             else:
-                e = e1 if i == 0 else lib_energy(ift, t, sp.npix, d, dom=None if t.kind == sp.kind else e1.domain)
+                e = e1 if i == 0 else lib_energy(ift, t, sp.npix, d, dom=e1.domain if t.kind != sp.kind else None)
                 if multi and not isinstance(e.domain, ift.MultiDomain):
                     e = e.ducktape("a")
-            if multi:
+            if multi and sp.ham:          # named terms inside the Hamiltonian variants, default names elsewhere
                 e.name = "t%d" % i
             leaves.append(e)
 
@@ -829,7 +829,10 @@ def check_point(sp, xi, xi0):
     # tangent space (only for an un-modelled categorical parameter)
     T = None
     if sp.ptype == "simplex" and sp.model == "id":
-        T = sp.terms[0].fam.tangent(thetas[0])
+        T0 = sp.terms[0].fam.tangent(thetas[0])
+        T = np.zeros((sp.D, T0.shape[1] + sp.D - T0.shape[0]))
+        T[:T0.shape[0], :T0.shape[1]] = T0
+        T[T0.shape[0]:, T0.shape[1]:] = np.eye(sp.D - T0.shape[0])
     joint = list(itertools.product(*[range(len(p[1])) for p in per]))
     if len(joint) > MAX_OUTCOMES:
         raise AssertionError("harness: %d joint outcomes" % len(joint))
